@@ -209,7 +209,9 @@ fn verif_cex_decoder_small_limits() {
 #[test]
 fn verif_cex_production_limits() {
     // public API, lengths around the 252 / 64008 limits, FE/FD placed at the boundaries
-    let lens = [0usize, 1, 250, 251, 252, 253, 254, 505, 64006, 64007, 64008, 64009, 64260, 64261, 64262, 128300];
+    // ... and around 2^16 and its multiples (where a 16-bit length wraps), also as the TAIL of a call
+    let lens = [0usize, 1, 250, 251, 252, 253, 254, 505, 64006, 64007, 64008, 64009, 64260, 64261, 64262, 65535, 65536, 65537, 65788,
+                128300, 131072, 131073, 196608];
     for &n in &lens {
         for pat in 0..6 {
             let mut x = vec![0x41u8; n];
@@ -224,7 +226,7 @@ fn verif_cex_production_limits() {
                 };
             }
             let want = ref_enc(&x, 252, 64008);
-            for cut in [0usize, 1, 251, 252, 253, n / 2, n.saturating_sub(1)] {
+            for cut in [0usize, 1, 251, 252, 253, n / 2, n.saturating_sub(1), n.saturating_sub(65536), n.saturating_sub(131072)] {
                 if cut > n {
                     continue;
                 }
